@@ -44,9 +44,13 @@ typedef struct Family {
 extern Family fam_daemon, fam_cop, fam_store, fam_heap, fam_env;
 
 /* reference runs (standalone nano_vm) cached in the zygote */
-typedef struct Ref { char prog[32]; int tok; Buf out, err; int status; bool valid; uint64_t instrs; } Ref;
+typedef struct Ref { char key[64]; Buf out, err; int status; bool valid; bool crashed; bool deser_ok; uint64_t instrs; } Ref;
 Ref *ref_get(const char *prog, int tok);     /* zygote side: computes on demand in a fork */
 Ref *ref_lookup(const char *prog, int tok);  /* child side: read only */
+Ref *ref_get_blob(const char *key, const uint8_t *d, size_t n);
+Ref *ref_lookup_key(const char *key);
+bool hostile_make(const uint8_t *d, size_t n, uint32_t mseed, Buf *out, char *desc, size_t dsz);
+int hostile_classes(void);
 
 /* run a closure in a forked child and collect what it writes to `fd` */
 int fork_collect(void (*fn)(void *arg, int fd), void *arg, Buf *out, int *status, char *crash_role, size_t crsz, Buf *asan);
